@@ -1144,6 +1144,17 @@ class Engine:
             if rv[1] == "PtrMetadata":
                 if isinstance(a, Ptr) and a.meta is not None and z3.is_expr(a.meta):
                     return a.meta
+                # a reference to a slice / str held as a model value: its length is the metadata
+                w = a
+                try:
+                    while isinstance(w, Ptr):
+                        w = self.load_ptr(ctx, w)
+                except Exception:
+                    w = None
+                if isinstance(w, Native) and w.kind in ("lvec", "strvec") and isinstance(w.data, tuple):
+                    return z3.IntVal(len(w.data)) if self.int_mode else bv(len(w.data), 64)
+                if isinstance(w, Native) and w.kind == "sstr" and all(z3.is_expr(x) for x in w.data) and all(z3.is_bv_value(x) and x.as_long() < 128 for x in w.data):
+                    return z3.IntVal(len(w.data)) if self.int_mode else bv(len(w.data), 64)
                 return Opaque("ptrmeta")
         if k == "discriminant":
             v = self.read_place(ctx, f, rv[1])
